@@ -61,6 +61,14 @@ pub fn check_case(t: &mut Tctx, which: &str, shape: &Shape, val: &Val, shape_fp:
         }
         Ok(Ok(b)) => b,
     };
+    if crate::bridge::take_ser_human_readable() {
+        t.st.violation(
+            &format!("{}:serializer-claims-human-readable", which),
+            "postcard's serializer reported is_human_readable() == true (types such as IpAddr, Uuid, DateTime would switch to their text form)".into(),
+            replay_case("dyn", shape, &refb),
+        );
+        return;
+    }
     if t.st.want_sample() && refb.len() >= 3 && refb.len() < 64 {
         let mut j = J::obj();
         j.set("shape", J::s(shape.text())).set("value", J::s(val.show())).set("bytes", J::s(hexs(&pcb)));
@@ -178,6 +186,13 @@ pub fn check_case(t: &mut Tctx, which: &str, shape: &Shape, val: &Val, shape_fp:
     // from_bytes (exact)
     t.st.count("c01_dec_from_bytes");
     match catch(|| with_shape(shape, || postcard::from_bytes::<DynVal>(&pcb))) {
+        Ok(Ok(DynVal(_))) if crate::bridge::human_readable_seen() => {
+            t.st.violation(
+                "C01:deserializer-claims-human-readable",
+                "postcard's deserializer reported is_human_readable() == true while its serializer reports false (IpAddr, Uuid, DateTime... would be written compact and read as text)".into(),
+                replay_case("dyn", shape, &refb),
+            );
+        }
         Ok(Ok(DynVal(v))) => {
             if v != *val {
                 t.st.violation(
@@ -486,6 +501,27 @@ impl Serialize for CollectedF<'_> {
     }
 }
 
+/// `collect_seq` / `collect_map` over iterators whose length is not known exactly.
+struct Filtered(Vec<u8>);
+impl Serialize for Filtered {
+    fn serialize<S: serde::Serializer>(&self, s: S) -> Result<S::Ok, S::Error> {
+        s.collect_seq(self.0.iter().filter(|x| **x % 2 == 0))
+    }
+}
+struct FilteredMap(Vec<(u8, u16)>);
+impl Serialize for FilteredMap {
+    fn serialize<S: serde::Serializer>(&self, s: S) -> Result<S::Ok, S::Error> {
+        s.collect_map(self.0.iter().filter(|x| x.0 % 2 == 0).map(|(k, v)| (k, v)))
+    }
+}
+/// exact-size iterator through collect_seq: must be framed like a sequence
+struct Exact(Vec<u16>);
+impl Serialize for Exact {
+    fn serialize<S: serde::Serializer>(&self, s: S) -> Result<S::Ok, S::Error> {
+        s.collect_seq(self.0.iter())
+    }
+}
+
 fn c02_extras(t: &mut Tctx) {
     let rounds = t.cfg.scale(20, 20_000, 400_000);
     for i in 0..rounds {
@@ -517,6 +553,52 @@ fn c02_extras(t: &mut Tctx) {
                         vec![kv("kind", "unknown-len"), kv("what", what), kv("n", n.to_string())],
                     );
                 }
+            }
+        }
+        // (a2) collect_seq / collect_map: inexact iterators are refused, exact ones framed normally
+        {
+            let items: Vec<u8> = (0..n + 1).map(|_| t.rng.next() as u8).collect();
+            let evens = items.iter().filter(|x| **x % 2 == 0).count();
+            t.st.count("c02_collect_seq_cases");
+            // a filter iterator has size_hint (0, Some(len)): exact only when the bounds coincide (len == 0)
+            let r1 = catch(|| postcard::to_allocvec(&Filtered(items.clone())));
+            let ok1 = match &r1 {
+                Ok(Err(postcard::Error::SerializeSeqLengthUnknown)) => true,
+                Ok(Ok(b)) => {
+                    // accepted only if correctly framed (serde may know the exact length for empty inputs)
+                    let want = spec::encode(&Val::Seq(items.iter().filter(|x| **x % 2 == 0).map(|x| Val::U8(*x)).collect()));
+                    *b == want
+                }
+                _ => false,
+            };
+            if !ok1 {
+                t.st.violation(
+                    "C02:unknown-length-not-refused",
+                    format!("collect_seq over a filter iterator ({} of {} items pass) gave {:?}", evens, items.len(), r1.map(|r| r.map(|b| hexs(&b)).map_err(|e| err_label(&e)))),
+                    vec![kv("kind", "collect_seq"), kv("items", crate::json::hex(&items))],
+                );
+            }
+            let pairs: Vec<(u8, u16)> = items.iter().map(|x| (*x, *x as u16 * 3)).collect();
+            let r2 = catch(|| postcard::to_allocvec(&FilteredMap(pairs.clone())));
+            let ok2 = match &r2 {
+                Ok(Err(postcard::Error::SerializeSeqLengthUnknown)) => true,
+                Ok(Ok(b)) => {
+                    let want = spec::encode(&Val::Map(pairs.iter().filter(|x| x.0 % 2 == 0).map(|(k, v)| (Val::U8(*k), Val::U16(*v))).collect()));
+                    *b == want
+                }
+                _ => false,
+            };
+            if !ok2 {
+                t.st.violation(
+                    "C02:unknown-length-not-refused",
+                    format!("collect_map over a filter iterator gave {:?}", r2.map(|r| r.map(|b| hexs(&b)).map_err(|e| err_label(&e)))),
+                    vec![kv("kind", "collect_map"), kv("items", crate::json::hex(&items))],
+                );
+            }
+            let ex: Vec<u16> = items.iter().map(|x| *x as u16 * 257).collect();
+            let want = spec::encode(&Val::Seq(ex.iter().map(|x| Val::U16(*x)).collect()));
+            if !matches!(catch(|| postcard::to_allocvec(&Exact(ex.clone()))), Ok(Ok(b)) if b == want) {
+                t.st.violation("C02:bytes-differ-from-spec", "collect_seq over an exact-size iterator is not framed like a sequence".into(), vec![kv("kind", "collect_seq_exact")]);
             }
         }
         // (b) collect_str == encoding of the formatted text
@@ -833,6 +915,24 @@ pub fn run(cfg: &Cfg, which: &str) -> Report {
         crate::for_each_corpus_type!(one);
     });
     rep.stats.merge(s3);
+    // lane 6: deep nesting (the statement says "nested to any depth")
+    let s6 = parallel(cfg, 6, |t| {
+        let mut i = 0u64;
+        for kind in 0..7 {
+            for &depth in &DEEP_DEPTHS {
+                i += 1;
+                if !t.mine(i) || (t.cfg.tier == Tier::Tiny && depth > 129) {
+                    continue;
+                }
+                let (shape, val) = deep_case(kind, depth);
+                let sfp = fp(shape.text().as_bytes());
+                t.st.count("deep_nesting_cases");
+                t.st.max("max_nesting_depth", depth as u64);
+                check_case(t, &which_s, &shape, &val, sfp, false);
+            }
+        }
+    });
+    rep.stats.merge(s6);
     if which == "C02" {
         let s4 = parallel(cfg, 4, |t| c02_extras(t));
         rep.stats.merge(s4);
@@ -861,6 +961,7 @@ pub fn run(cfg: &Cfg, which: &str) -> Report {
         rep.floor(&format!("kind_{}", k), 1);
     }
     rep.floor("corpus_cases", 20);
+    rep.floor("deep_nesting_cases", 7);
     if which == "C01" {
         for k in ["c01_enc_to_slice", "c01_enc_to_vec_heapless", "c01_enc_to_extend_sink", "c01_enc_to_io", "c01_enc_to_eio", "c01_dec_from_bytes", "c01_dec_take_from_bytes", "c01_dec_from_io", "c01_dec_from_eio"] {
             rep.floor(k, 10);
@@ -869,6 +970,7 @@ pub fn run(cfg: &Cfg, which: &str) -> Report {
         rep.floor("c02_bytes_compared", 1000);
         rep.floor("c02_unknown_len_cases", 10);
         rep.floor("c02_collect_str_cases", 10);
+        rep.floor("c02_collect_seq_cases", 10);
     }
     rep
 }
